@@ -307,4 +307,109 @@ pub fn score_window_ascii<const H: usize, const N: usize, const P: usize>(s: usi
     std::mem::forget(m);
 }
 
+// ------------------------------------------------------------------------------------------
+// Long gaps: the running score is floored at zero once a gap has eaten a whole match score.
+// Shape: two symbolic characters, a run of G copies of ONE symbolic filler character, two
+// symbolic characters; needle of two symbolic characters; window [S, H).
+// ------------------------------------------------------------------------------------------
+pub fn optimal_gap_ascii<const H: usize, const P: usize>(s: usize, path: Option<bool>) {
+    const N: usize = 2;
+    let sc = sym_config_p(path, Some(false));
+    let head: [u8; 2] = sym::ascii_arr();
+    let tail: [u8; 2] = sym::ascii_arr();
+    let filler = sym::ascii();
+    let mut hay = [filler; H];
+    hay[0] = head[0];
+    hay[1] = head[1];
+    hay[H - 2] = tail[0];
+    hay[H - 1] = tail[1];
+    let needle: [u8; N] = sym_needle_ascii(sc.cfg.ignore_case);
+    let nh = norm_ascii(&hay, sc.cfg.ignore_case);
+    // the filler never matches: the gap is a real gap
+    assume(spec::fold_ascii(filler, sc.cfg.ignore_case) != needle[0] && spec::fold_ascii(filler, sc.cfg.ignore_case) != needle[1]);
+    assume_window(&nh, &needle, s, H);
+    let g = greedy_end(&nh, &needle, s);
+    assume(g.is_some());
+    let g = g.unwrap_or(s + 1);
+    let bonus = bonus_ascii(&hay, sc.scheme);
+    let mut m = sym_matcher(&sc.cfg);
+    let (mut idx, pre) = sym_indices::<P>(N);
+    #[cfg(kani)]
+    let r = m.fuzzy_match_optimal::<true, AsciiChar, AsciiChar>(AsciiChar::cast(&hay), AsciiChar::cast(&needle), s, g, H, &mut idx);
+    #[cfg(not(kani))]
+    let r = m.fuzzy_indices(Utf32Str::Ascii(&hay), Utf32Str::Ascii(&needle), &mut idx);
+    check!(r.is_some(), "C01 optimal matcher accepts every window the prefilter lets through (long gap)");
+    // (the brute-force / naive-DP sandwich is left to the short-haystack instances: at this length
+    // the two oracles alone exhaust the memory cap)
+    check_fuzzy_result::<u8, H, N, P>(&nh, &needle, &bonus, r, &idx, &pre, false);
+    #[cfg(kani)]
+    let r2 = m.fuzzy_match_optimal::<false, AsciiChar, AsciiChar>(AsciiChar::cast(&hay), AsciiChar::cast(&needle), s, g, H, &mut Vec::new());
+    #[cfg(not(kani))]
+    let r2 = m.fuzzy_match(Utf32Str::Ascii(&hay), Utf32Str::Ascii(&needle));
+    check!(r2 == r, "C03 score-only and indices variants return the same value (optimal, long gap)");
+    if let Some(score) = r {
+        cover!(idx.len() == P + N && idx[P + 1] - idx[P] > 16, "gap long enough to floor the running score at zero");
+    }
+    std::mem::forget(m);
+}
+
+/// the layout of the scratch views for every (haystack length, needle length) the guards accept,
+/// REAL constants: every view must lie inside the slab and the views must not overlap (C10:
+/// "without touching or forming references to memory outside the matcher's own scratch allocation")
+#[cfg(not(nucleo_verif_small))]
+pub fn layout_real(ascii: bool) {
+    const L: usize = 70_000;
+    static HB: [u8; L] = [b'a'; L];
+    static HC: [char; L] = ['a'; L];
+    let h = sym::usize_();
+    let n = sym::usize_();
+    assume(n >= 1 && n <= h && h <= L);
+    let mut m = Matcher::new(crate::Config::DEFAULT);
+    let (base, size) = m.slab.verif_raw();
+    let base = base as usize;
+    let mut v: [(usize, usize); 5] = [(0, 0); 5];
+    let got = if ascii {
+        match m.slab.alloc::<AsciiChar>(AsciiChar::cast(&HB[..h]), n) {
+            Some(d) => {
+                v[0] = (d.haystack.as_ptr() as usize, d.haystack.len());
+                v[1] = (d.bonus.as_ptr() as usize, d.bonus.len());
+                v[2] = (d.row_offs.as_ptr() as usize, d.row_offs.len() * 2);
+                v[3] = (d.current_row.as_ptr() as usize, d.current_row.len() * 8);
+                v[4] = (d.matrix_cells.as_ptr() as usize, d.matrix_cells.len());
+                check!(d.haystack.len() == h && d.bonus.len() == h && d.row_offs.len() == n && d.current_row.len() == h + 1 - n, "C10 the scratch views have the documented lengths");
+                check!(d.matrix_cells.len() >= (h + 1 - n) * n, "C10 the matrix view is large enough for every row");
+                true
+            }
+            None => false,
+        }
+    } else {
+        match m.slab.alloc::<char>(&HC[..h], n) {
+            Some(d) => {
+                v[0] = (d.haystack.as_ptr() as usize, d.haystack.len() * 4);
+                v[1] = (d.bonus.as_ptr() as usize, d.bonus.len());
+                v[2] = (d.row_offs.as_ptr() as usize, d.row_offs.len() * 2);
+                v[3] = (d.current_row.as_ptr() as usize, d.current_row.len() * 8);
+                v[4] = (d.matrix_cells.as_ptr() as usize, d.matrix_cells.len());
+                check!(d.matrix_cells.len() >= (h + 1 - n) * n, "C10 the matrix view is large enough for every row (code points)");
+                true
+            }
+            None => false,
+        }
+    };
+    if got {
+        let mut i = 0;
+        while i < 5 {
+            check!(v[i].0 >= base && v[i].0 + v[i].1 <= base + size, "C10 every scratch view lies inside the matcher's own allocation");
+            if i > 0 {
+                check!(v[i - 1].0 + v[i - 1].1 <= v[i].0, "C10 the scratch views do not overlap");
+            }
+            i += 1;
+        }
+        check!(h <= u16::MAX as usize && n <= 2048, "C10 the matrix path is only taken within the index widths it uses");
+    }
+    cover!(got, "matrix path taken");
+    cover!(!got && h * n <= 100 * 1024, "rejected by the size of the layout, not by the cell limit");
+    std::mem::forget(m);
+}
+
 include!(concat!(env!("NUCLEO_VERIF_GEN"), "/matcher_fuzzy.rs"));
